@@ -1,5 +1,5 @@
 from sqv.driver import Obligation
-from sqv.props.c06 import lrc_precheck
+from sqv.props.c06 import lrc_precheck, both_prechecks, lxc_obligations
 
 
 def plan(ctx):
@@ -29,8 +29,9 @@ def plan(ctx):
                               bounds="one of 12 concrete programs (strings and comments containing brackets/quotes/#, nested multi-line literals, %..% names); "
                                      "rewrite kind and position indices symbolic (finite domain enumerated through the solver, bodies run natively on the real lexer+parser)",
                               desc=f"program {i}: 13 layout rewrites (space/tab at a token boundary, comments before a line end and as whole lines, line break after a token inside brackets, CRLF, ; <-> newline, blank statements) at every applicable position: parse(base) == parse(rewritten)"))
+    obs += lxc_obligations(ctx, ['blank', 'crlf'])
     return {
-        "precheck": lrc_precheck,
+        "precheck": both_prechecks,
         "obligations": obs,
         "explanation": "CrossHair (z3) symbolic execution of the real grammar actions (p_* functions) on production stand-ins with "
                        "argument lists of symbolic length.",
